@@ -65,6 +65,8 @@ structure Stat where
   hspm : S.x.spm = M0.sp
   /-- number of elements of every variable -/
   cnts : List Nat
+  /-- the read-only array parameters: element type, length, first cell of the elements seen -/
+  W : List (CSem.Ty × Nat × Nat)
   K : Nat
   d : Nat
   hK : vtys.length + xcount cnts cnts.length ≤ K
@@ -250,9 +252,9 @@ theorem sim_exprOut (T : Stat) {c : SCtx} {nd : Nat} {pre post : List Item} (hp 
     (e : Expr) (hext : Ext T (c.upd (exprOut T.S.cs c e).ctx))
     (hwt : e.wt (T.vtys.take nd) = true) {s : Store} {v : Int} (hev : evalE T.S.cs s e = some v)
     (hits : T.S.its = pre ++ (exprOut T.S.cs c e).items ++ post) {env : Env} {M : Mem}
-    (inv : SInv T.M0 T.S.cs T.cnts T.σ T.vtys s env M) :
+    (inv : SInv T.M0 T.S.cs T.cnts T.W T.σ T.vtys s env M) :
     ∃ n env' r, T.Reach n (T.at env M pre) (T.at env' M (pre ++ (exprOut T.S.cs c e).items)) ∧
-      SInv T.M0 T.S.cs T.cnts T.σ T.vtys s env' M ∧ Frame c.lastid (exprOut T.S.cs c e).ctx.lastid env env' ∧
+      SInv T.M0 T.S.cs T.cnts T.W T.σ T.vtys s env' M ∧ Frame c.lastid (exprOut T.S.cs c e).ctx.lastid env env' ∧
       readVal T.S.p env' (exprOut T.S.cs c e).val = .ok r ∧ Rep e.ty v r := by
   have hpre : ∀ i, i < nd → T.σ.getD i 0 = c.slots.getD i 0 := fun i hi => hext.1 i (by
     show i < c.slots.length; rw [hp.nslots]; exact hi)
@@ -281,10 +283,10 @@ theorem sim_condOut (T : Stat) {c : SCtx} {nd : Nat} {pre post : List Item} (hp 
     (hwt : e.wt (T.vtys.take nd) = true) {s : Store} {v : Int} (hev : evalE T.S.cs s e = some v)
     (hits : T.S.its = pre ++ (exprOut T.S.cs c e).items ++
       (jnzOut T.S.cs ((c.upd (exprOut T.S.cs c e).ctx).addBlocks k) e.ty (exprOut T.S.cs c e).val).items ++ post)
-    {env : Env} {M : Mem} (inv : SInv T.M0 T.S.cs T.cnts T.σ T.vtys s env M) :
+    {env : Env} {M : Mem} (inv : SInv T.M0 T.S.cs T.cnts T.W T.σ T.vtys s env M) :
     ∃ n env' r w, T.Reach n (T.at env M pre) (T.at env' M (pre ++ (exprOut T.S.cs c e).items ++
         (jnzOut T.S.cs ((c.upd (exprOut T.S.cs c e).ctx).addBlocks k) e.ty (exprOut T.S.cs c e).val).items)) ∧
-      SInv T.M0 T.S.cs T.cnts T.σ T.vtys s env' M ∧
+      SInv T.M0 T.S.cs T.cnts T.W T.σ T.vtys s env' M ∧
       readVal T.S.p env' (jnzOut T.S.cs ((c.upd (exprOut T.S.cs c e).ctx).addBlocks k) e.ty
         (exprOut T.S.cs c e).val).val = .ok r ∧ r.asW = .ok w ∧ (w ≠ 0 ↔ v ≠ 0) := by
   have sj := jnzArg_straight T.S.cs ((c.upd (exprOut T.S.cs c e).ctx).addBlocks k).ctx e.ty
@@ -336,18 +338,18 @@ def Returned (T : Stat) (v : Int) (n : Nat) (st0 : State) (pos : List Item) (o :
 def Post (T : Stat) (lp : Bool × Bool) (brk cont : String) (st0 : State) (pos : List Item) (o : SCtx) :
     CSem2.Outcome → Prop
   | .normal s' => o.jump = none ∧ ∃ n env' M', T.Reach n st0 (T.at env' M' pos) ∧
-      SInv T.M0 T.S.cs T.cnts T.σ T.vtys s' env' M'
-  | .brk s' => lp.1 = true ∧ ∃ n env' M', SInv T.M0 T.S.cs T.cnts T.σ T.vtys s' env' M' ∧ JumpedTo T brk n st0 env' M' pos o
-  | .cont s' => lp.2 = true ∧ ∃ n env' M', SInv T.M0 T.S.cs T.cnts T.σ T.vtys s' env' M' ∧ JumpedTo T cont n st0 env' M' pos o
+      SInv T.M0 T.S.cs T.cnts T.W T.σ T.vtys s' env' M'
+  | .brk s' => lp.1 = true ∧ ∃ n env' M', SInv T.M0 T.S.cs T.cnts T.W T.σ T.vtys s' env' M' ∧ JumpedTo T brk n st0 env' M' pos o
+  | .cont s' => lp.2 = true ∧ ∃ n env' M', SInv T.M0 T.S.cs T.cnts T.W T.σ T.vtys s' env' M' ∧ JumpedTo T cont n st0 env' M' pos o
   | .ret v => InRange (T.ret.intTy T.S.cs) v ∧ ∃ n, Returned T v n st0 pos o
 
 /-- The same after the block has been closed by the next label: nothing is pending any more. -/
 def Done (T : Stat) (lp : Bool × Bool) (brk cont : String) (st0 : State) (pos : List Item) :
     CSem2.Outcome → Prop
-  | .normal s' => ∃ n env' M', T.Reach n st0 (T.at env' M' pos) ∧ SInv T.M0 T.S.cs T.cnts T.σ T.vtys s' env' M'
-  | .brk s' => lp.1 = true ∧ ∃ n env' M' st, SInv T.M0 T.S.cs T.cnts T.σ T.vtys s' env' M' ∧ T.Reach n st0 st ∧
+  | .normal s' => ∃ n env' M', T.Reach n st0 (T.at env' M' pos) ∧ SInv T.M0 T.S.cs T.cnts T.W T.σ T.vtys s' env' M'
+  | .brk s' => lp.1 = true ∧ ∃ n env' M' st, SInv T.M0 T.S.cs T.cnts T.W T.σ T.vtys s' env' M' ∧ T.Reach n st0 st ∧
       AtLabel T.S brk env' M' st
-  | .cont s' => lp.2 = true ∧ ∃ n env' M' st, SInv T.M0 T.S.cs T.cnts T.σ T.vtys s' env' M' ∧ T.Reach n st0 st ∧
+  | .cont s' => lp.2 = true ∧ ∃ n env' M' st, SInv T.M0 T.S.cs T.cnts T.W T.σ T.vtys s' env' M' ∧ T.Reach n st0 st ∧
       AtLabel T.S cont env' M' st
   | .ret v => InRange (T.ret.intTy T.S.cs) v ∧
       ∃ n st r, T.Reach n st0 st ∧ step T.S.p T.S.ext st = T.exit r ∧ RetRep T.ret v r
@@ -453,7 +455,7 @@ theorem Post.closeJmp {T : Stat} {lp : Bool × Bool} {brk cont : String} {st0 : 
     (hlp : (lp.1 = true → CanJump T.S brk) ∧ (lp.2 = true → CanJump T.S cont)) (hl' : CanJump T.S l') :
     match out with
     | .normal s' => ∃ n env' M' st, T.Reach n st0 st ∧ AtLabel T.S l' env' M' st ∧
-        SInv T.M0 T.S.cs T.cnts T.σ T.vtys s' env' M'
+        SInv T.M0 T.S.cs T.cnts T.W T.σ T.vtys s' env' M'
     | out => Done T lp brk cont st0 [] out := by
   cases out with
   | normal s' =>
